@@ -173,7 +173,7 @@ class Report(object):
 _POOL_FN = None
 
 
-def task_call(fn, item):
+def task_call(fn, item, history=None):
     """Run one task (block / chunk of histories) of a check from a cold interpreter state: class-level caches of plasTeX
     are dropped first, so what a task observes depends on the task alone and not on which tasks the same worker ran
     before.  Candidate violations are tagged with the task, so that a violation that needs the earlier cases of its
@@ -190,7 +190,7 @@ def task_call(fn, item):
                     import base64
                     tag = {'module': fn.__module__, 'fn': fn.__name__,
                            'arg_pickle_b64': base64.b64encode(pickle.dumps(item, 2)).decode('ascii'),
-                           'arg_repr': repr(item)[:400]}
+                           'arg_repr': repr(item)[:400], 'history': list(history or [])}
                 v['_task'] = tag
     return res
 
@@ -216,11 +216,40 @@ def replay_task(arg):
     return None
 
 
-def _pool_call(item):
+_WORKER_HISTORY = []     # in a pool worker: (call id, index) of the tasks this worker has run so far
+TASK_ITEMS = {}          # in the parent: call id -> (fn, items) of every pmap call of this run
+_CALL_ID = [0]
+
+
+def _pool_call(arg):
+    call_id, idx, item = arg
     try:
-        return ('ok', task_call(_POOL_FN, item))
+        hist = list(_WORKER_HISTORY)
+        _WORKER_HISTORY.append((call_id, idx))
+        return ('ok', task_call(_POOL_FN, item, history=hist))
     except BaseException as e:        # harness error inside a worker
         return ('err', '%s\n%s' % (repr(item)[:300], traceback.format_exc()))
+
+
+def history_items(tag):
+    """the (module, function name, pickled argument) of every task the worker had run before the tagged one"""
+    import base64
+    out = []
+    for call_id, idx in tag.get('history') or []:
+        fn, items = TASK_ITEMS[call_id]
+        out.append([fn.__module__, fn.__name__, base64.b64encode(pickle.dumps(items[idx], 2)).decode('ascii')])
+    return out
+
+
+def replay_worker_history(arg):
+    """(list of [module, fn, pickled arg], task tag, case): run the earlier tasks of the worker in their order in this
+    fresh process, then the tagged task; -> the violation record for `case`, else None"""
+    earlier, tag, case = arg
+    import base64, importlib
+    for modname, fname, blob in earlier:
+        fn = getattr(importlib.import_module(modname), fname)
+        task_call(fn, pickle.loads(base64.b64decode(blob)))
+    return replay_task((tag, case))
 
 
 def pmap(fn, items, procs=None, chunksize=1, ordered=False):
@@ -234,10 +263,15 @@ def pmap(fn, items, procs=None, chunksize=1, ordered=False):
             yield task_call(fn, it)
         return
     _POOL_FN = fn
+    _CALL_ID[0] += 1
+    call_id = _CALL_ID[0]
+    TASK_ITEMS[call_id] = (fn, items)
+    del _WORKER_HISTORY[:]
     ctx = multiprocessing.get_context('fork')
     pool = ctx.Pool(min(procs, len(items)))
+    args = [(call_id, i, it) for i, it in enumerate(items)]
     try:
-        it = pool.imap(_pool_call, items, chunksize) if ordered else pool.imap_unordered(_pool_call, items, chunksize)
+        it = pool.imap(_pool_call, args, chunksize) if ordered else pool.imap_unordered(_pool_call, args, chunksize)
         for tag, res in it:
             if tag == 'err':
                 raise RuntimeError('worker failed on ' + res)
